@@ -298,7 +298,7 @@ func lkGenRoute(t *rapid.T, idx int, file string) lkRoute {
 }
 
 var lkPertKinds = []string{"dropAnn", "dupAnn", "renameRef", "retarget", "strayAnn", "aliasUnknown", "aliasDup", "dupTemplateName", "unboundTemplateName",
-	"aliasWrongType", "prefixParam", "pathNotInTemplate", "extraParam", "twoBodies", "bodyAndForm", "retype", "bodyPrimitive", "results", "verb", "changeKind", "neutralAlias", "secCollision", "reorderAnns", "bodyAndForm", "secondBinding"}
+	"aliasWrongType", "prefixParam", "pathNotInTemplate", "extraParam", "twoBodies", "bodyAndForm", "retype", "bodyPrimitive", "results", "verb", "changeKind", "neutralAlias", "secCollision", "reorderAnns", "bodyAndForm", "secondBinding", "aliasWrongTypeAll", "aliasWrongTypeGhost"}
 
 func lkGen(t *rapid.T) lkModel {
 	var m lkModel
@@ -451,6 +451,25 @@ func lkApply(m lkModel) ([]lkCtrl, []string) {
 			if i := annIdx(isPath, p.A); i >= 0 {
 				r.Anns[i].AliasRaw = []string{"5", "true", "[\"id\"]", "{a: 1}", "null"}[p.B%5]
 				applied = append(applied, "aliasWrongType:"+r.Anns[i].Ref)
+			}
+		case "aliasWrongTypeAll":
+			// every @Path of the route carries a name that is not a string (each is looked at by several validation steps)
+			n := 0
+			for i := range r.Anns {
+				if r.Anns[i].Kind == "Path" {
+					r.Anns[i].AliasRaw = []string{"5", "true", "[\"id\"]", "{a: 1}", "null"}[(p.B+n)%5]
+					n++
+				}
+			}
+			if n > 0 {
+				applied = append(applied, fmt.Sprintf("aliasWrongTypeAll:%d", n))
+			}
+		case "aliasWrongTypeGhost":
+			// a malformed name on a @Path that also references no parameter
+			if i := annIdx(isPath, p.A); i >= 0 {
+				r.Anns[i].AliasRaw = []string{"5", "true", "[\"id\"]", "{a: 1}", "null"}[p.B%5]
+				r.Anns[i].Ref = "ghost"
+				applied = append(applied, "aliasWrongTypeGhost")
 			}
 		case "aliasDup":
 			i, j := annIdx(isPath, 0), annIdx(isPath, 1)
